@@ -98,7 +98,8 @@ Print Assumptions C03_gen_profiles_agree.
 (* NOT PROVED (not modelled): emit_dependencies_first / emit_each_once — GeneratorImpl::generateEquationCode's
    dependency-first emission into initialiseVariables / computeComputedConstants / computeRates /
    computeVariables.  Observed only: the compiled / executed code of every generated model yields the
-   reference values after each of the four phases. *)
+   reference values after each of the four phases.  (The emission order itself is modelled and proved under C20:
+   ExternalDefs.v / ExternalEmitProofs.v.) *)
 
 (** * Where the faithful model of the unchanged generator does NOT print what the equation says
     (each witness replayed on the real library; known findings C03-...). *)
